@@ -71,6 +71,8 @@ structure FinRel (s1 fin : St) (n : Node) : Prop where
   ge : ∀ e ∈ s1.ge, e.1 ≠ GNode.elem n → e.2 ≠ GNode.elem n → e ∈ fin.ge
   rg : ∀ e ∈ s1.rg, e ∈ fin.rg
   inputs : fin.inputs = s1.inputs
+  /-- the last step adds no edge into a held element -/
+  geIn : ∀ a k, Held s1 k → (a, GNode.elem k) ∈ fin.ge → (a, GNode.elem k) ∈ s1.ge
 
 theorem FinRel.lookup_ne {s1 fin : St} {n : Node} (h : FinRel s1 fin n) (m : Node) (hmn : m ≠ n) :
     lookup fin.data m = lookup s1.data m := by
@@ -81,7 +83,7 @@ theorem FinRel.lookup_ne {s1 fin : St} {n : Node} (h : FinRel s1 fin n) (m : Nod
 theorem FinRel.presH {s1 fin : St} {n : Node} (h : FinRel s1 fin n) : PresH s1 fin := by
   have hne : ∀ m, Held s1 m → m ≠ n := by
     intro m hm hmn; subst hmn; unfold Held at hm; rw [h.unheld] at hm; cases hm
-  refine ⟨?_, ?_, ?_, h.rg⟩
+  refine ⟨?_, ?_, ?_, h.rg, h.geIn⟩
   · intro m v hl
     rw [h.lookup_ne m (hne m (by unfold Held; rw [hl]; rfl))]; exact hl
   · intro a b ha hb hlt
@@ -97,12 +99,14 @@ theorem FinRel.presH {s1 fin : St} {n : Node} (h : FinRel s1 fin n) : PresH s1 f
 theorem finish {s s1 fin : St} {n : Node} (hm : Mid env lt s) (hnone : lookup s.data n = none)
     (hnot : n ∉ s.stack) (hpost : Post env lt (s.push env n) s1) (hfr : FinRel s1 fin n)
     (hgi : GI env lt fin) (hstack : fin.stack = s.stack) (hidx : fin.idx = s.idx) (hbody : BodyRel s fin)
-    (hnew : ∀ v, lookup fin.data n = some v → ∃ tr, Cert env fin n v tr) : Post env lt s fin := by
+    (hnew : ∀ v, lookup fin.data n = some v → ∃ tr, Cert env fin n v tr)
+    (hstackIn : ∀ a t, t ∈ s.stack → (a, GNode.elem t) ∈ fin.ge →
+      (a, GNode.elem t) ∈ s.ge ∨ s.edgeTarget = some t) : Post env lt s fin := by
   have hsp : SameC s (s.push env n) := ⟨rfl, rfl, rfl, rfl⟩
   have hH : PresH s fin := ((PresH.of_sameC hsp).trans hpost.presH).trans hfr.presH
   have hinp : fin.inputs = s.inputs := hfr.inputs.trans hpost.inputs
   refine ⟨⟨hgi, by rw [hstack, hidx]; exact hm.idxok, by rw [hstack, hidx]; exact hm.len,
-    hbody.refsBelow hm.refsBelow, ?_⟩, hidx, hH, ⟨hH.ext, hstack, ?_, ?_⟩, hinp, hbody⟩
+    hbody.refsBelow hm.refsBelow, ?_⟩, hidx, hH, ⟨hH.ext, hstack, ?_, ?_⟩, hinp, hbody, hstackIn⟩
   · refine CInv.presH hfr.presH hfr.inputs hpost.mid.certs ?_
     intro k v hl hl1 _
     by_cases hkn : k = n
@@ -171,10 +175,40 @@ theorem runN_cert (ho : StrictOrder lt) (hr : Ranked env lt) (hnc : NoCatchEnv e
       intro s1x h1 h2 h3 h4
       refine ⟨hun1, Or.inl (by simp [St.rollback, St.removeNode, St.dropFrame, h1]), ?_,
         by intro e he; simp [St.rollback, St.removeNode, St.dropFrame, h3, he],
-        by simp [St.rollback, St.removeNode, St.dropFrame, h4]⟩
-      intro e he hn1 hn2
-      simp only [St.rollback, St.removeNode, St.dropFrame, List.mem_filter, h2, Bool.and_eq_true, bne_iff_ne]
-      exact ⟨he, hn1, hn2⟩
+        by simp [St.rollback, St.removeNode, St.dropFrame, h4], ?_⟩
+      · intro e he hn1 hn2
+        simp only [St.rollback, St.removeNode, St.dropFrame, List.mem_filter, h2, Bool.and_eq_true, bne_iff_ne]
+        exact ⟨he, hn1, hn2⟩
+      · intro a k _ he
+        simp only [St.rollback, St.removeNode, St.dropFrame, List.mem_filter, h2] at he
+        exact he.1
+    -- among the elements that were executing before, only the nearest cached caller may have got edges
+    have hold : ∀ a t, t ∈ s.stack → (a, GNode.elem t) ∈ s1.ge →
+        (a, GNode.elem t) ∈ s.ge ∨ (env.cached n.1 = false ∧ s.edgeTarget = some t) := by
+      intro a t ht he
+      rcases hpost.stackIn a t (by simp [St.push, ht]) he with h | h
+      · exact Or.inl h
+      · by_cases hc : env.cached n.1 = true
+        · rw [edgeTarget_push_cached env s n hm.len hc] at h
+          cases h; exact absurd ht hnot
+        · have hc' : env.cached n.1 = false := by simpa using hc
+          rw [edgeTarget_push_uncached env s n hm.len hm.idxok hc'] at h
+          exact Or.inr ⟨hc', h⟩
+    have hrollIn : ∀ s1x : St, s1x.ge = s1.ge → ∀ a t, t ∈ s.stack → (a, GNode.elem t) ∈ (s1x.rollback n).ge →
+        (a, GNode.elem t) ∈ s.ge ∨ s.edgeTarget = some t := by
+      intro s1x h2 a t ht he
+      simp only [St.rollback, St.removeNode, St.dropFrame, List.mem_filter, h2] at he
+      exact (hold a t ht he.1).imp id (fun h => h.2)
+    -- the step `pop` adds one edge, into the nearest cached caller of the finished frame
+    have hpopIn : ∀ s1x : St, s1x.ge = s1.ge → s1x.stack = s1.stack → s1x.idx = s1.idx →
+        ∀ e, e ∈ (s1x.pop env n).ge → e ∈ s1.ge ∨ ∃ t, s.edgeTarget = some t ∧
+          e = ((if env.cached n.1 then GNode.elem n else GNode.obj n.1), GNode.elem t) := by
+      intro s1x h2 h3 h4 e he
+      rcases (pop_ge env s1x n e).mp he with h | ⟨t, ht, h⟩
+      · exact Or.inl (h2 ▸ h)
+      · refine Or.inr ⟨t, ?_, h⟩
+        rw [← ht]
+        exact (edgeTarget_congr (s := s) (by simp [St.dropFrame, h3, hdropS]) (by simp [St.dropFrame, h4, hdropI])).symm
     have hnoNew : ∀ fin : St, fin.data = s1.data → ∀ v, lookup fin.data n = some v → ∃ tr, Cert env fin n v tr := by
       intro fin hd v hl; rw [hd, hun1] at hl; cases hl
     cases res with
@@ -182,7 +216,7 @@ theorem runN_cert (ho : StrictOrder lt) (hr : Ranked env lt) (hnc : NoCatchEnv e
       simp only [] at hG hF ⊢
       obtain ⟨g', hst', hidx', _⟩ := hG
       refine ⟨finish hm hnone hnot hpost (hroll s1 rfl rfl rfl rfl) g' hst' hidx' hF
-        (hnoNew _ (by simp [St.rollback, St.removeNode, St.dropFrame])), ?_⟩
+        (hnoNew _ (by simp [St.rollback, St.removeNode, St.dropFrame])) (hrollIn s1 rfl), ?_⟩
       intro w hw; cases hw
     | ok v =>
       simp only [] at hG hF ⊢
@@ -192,7 +226,7 @@ theorem runN_cert (ho : StrictOrder lt) (hr : Ranked env lt) (hnc : NoCatchEnv e
         · simp only [hn, if_true] at hG hF ⊢
           obtain ⟨g', hst', hidx', _⟩ := hG
           refine ⟨finish hm hnone hnot hpost (hroll s1.newExc rfl rfl rfl rfl) g' hst' hidx' hF
-            (hnoNew _ (by simp [St.rollback, St.removeNode, St.dropFrame, St.newExc])), ?_⟩
+            (hnoNew _ (by simp [St.rollback, St.removeNode, St.dropFrame, St.newExc])) (hrollIn s1.newExc rfl), ?_⟩
           intro w hw; cases hw
         · simp only [hn, Bool.false_eq_true, if_false] at hG hF ⊢
           obtain ⟨g', hst', hidx', _⟩ := hG
@@ -205,12 +239,36 @@ theorem runN_cert (ho : StrictOrder lt) (hr : Ranked env lt) (hnc : NoCatchEnv e
             intro e he; rw [← hfin]; exact (pop_ge env _ n e).mpr (Or.inl he)
           have hrg : ∀ e ∈ s1.rg, e ∈ fin.rg := by
             intro e he; rw [← hfin]; exact pop_rg_mono env _ n e he
-          have hfr : FinRel s1 fin n := ⟨hun1, Or.inr ⟨v, hdata⟩, fun e he _ _ => hge e he, hrg, hinputs⟩
+          have hgeq := hpopIn ({ s1 with data := insert s1.data n v } : St) rfl rfl rfl
+          rw [hfin] at hgeq
+          simp only [hc, if_true] at hgeq
+          have hunT : ∀ t, s.edgeTarget = some t → ¬ Held s1 t := by
+            intro t ht hh
+            unfold Held at hh
+            rw [hpost.mid.gi.stackUnheld t (by rw [hs1stack]; simp [edgeTarget_mem s t ht])] at hh; cases hh
+          have hfr : FinRel s1 fin n := ⟨hun1, Or.inr ⟨v, hdata⟩, fun e he _ _ => hge e he, hrg, hinputs, by
+            intro a k hk he
+            rcases hgeq _ he with h | ⟨t, ht, h⟩
+            · exact h
+            · cases h; exact absurd hk (hunT k ht)⟩
           have hlookn : lookup fin.data n = some v := by rw [hdata, lookup_insert]; simp
           have hT : (s.push env n).edgeTarget = some n := edgeTarget_push_cached env s n hm.len hc
-          obtain ⟨tr, hrep, hpend⟩ := htrace v rfl
+          obtain ⟨tr, hrep, hpend, hnewin⟩ := htrace v rfl
+          have hnogn : GNode.elem n ∉ s.gn := by
+            intro h
+            rcases hm.gi.nodesHeld n h with h' | h'
+            · rw [hnone] at h'; cases h'
+            · exact hnot h'
           have hcert : Cert env fin n v tr := by
-            refine ⟨hrep, ?_, ?_⟩
+            refine ⟨hrep, ?_, ?_, ?_⟩
+            rotate_left 2
+            · -- every edge into `n` was added while its body ran, by a recorded call
+              intro a he
+              rcases hgeq _ he with h | ⟨t, ht, h⟩
+              · rcases hnewin a n hT h with h0 | h0
+                · exact absurd (hm.gi.edgeNodes _ _ h0).2 hnogn
+                · exact h0
+              · cases h; exact absurd (edgeTarget_mem s n ht) hnot
             · intro hv
               subst hv
               cases ha : env.allowNone n.1 with
@@ -235,17 +293,29 @@ theorem runN_cert (ho : StrictOrder lt) (hr : Ranked env lt) (hnc : NoCatchEnv e
                 have := rank_le_length s1.data m
                 omega
               | ucall m => exact hge _ (hp n hT)
+          have hstackIn : ∀ a t, t ∈ s.stack → (a, GNode.elem t) ∈ fin.ge →
+              (a, GNode.elem t) ∈ s.ge ∨ s.edgeTarget = some t := by
+            intro a t ht he
+            rcases hgeq _ he with h | ⟨t', ht', h⟩
+            · exact (hold a t ht h).imp id (fun h => h.2)
+            · cases h; exact Or.inr ht'
           refine ⟨finish hm hnone hnot hpost hfr g' hst' hidx' hF
-            (fun v' hl => by rw [hlookn] at hl; cases hl; exact ⟨tr, hcert⟩), ?_⟩
+            (fun v' hl => by rw [hlookn] at hl; cases hl; exact ⟨tr, hcert⟩) hstackIn, ?_⟩
           intro w hw
           cases hw
           left
-          refine ⟨hc, hlookn, ?_⟩
-          intro t ht
-          rw [← hfin]
-          refine (pop_ge env _ n _).mpr (Or.inr ⟨t, ?_, by simp [hc]⟩)
-          rw [← ht]
-          exact edgeTarget_congr (s := s) (by simp [St.dropFrame, hdropS]) (by simp [St.dropFrame, hdropI])
+          refine ⟨hc, ⟨hlookn, ?_⟩, ?_⟩
+          · intro t ht
+            rw [← hfin]
+            refine (pop_ge env _ n _).mpr (Or.inr ⟨t, ?_, by simp [hc]⟩)
+            rw [← ht]
+            exact edgeTarget_congr (s := s) (by simp [St.dropFrame, hdropS]) (by simp [St.dropFrame, hdropI])
+          · intro a t ht he
+            rcases hgeq _ he with h | ⟨t', _, h⟩
+            · rcases hold a t (edgeTarget_mem s t ht) h with h0 | h0
+              · exact Or.inl h0
+              · rw [hc] at h0; cases h0.1
+            · cases h; exact Or.inr (Or.inl ⟨n, v, rfl, by simp⟩)
       · have hc' : env.cached n.1 = false := by simpa using hc
         simp only [hc', Bool.false_eq_true, if_false] at hG hF ⊢
         obtain ⟨g', hst', hidx', _⟩ := hG
@@ -256,14 +326,38 @@ theorem runN_cert (ho : StrictOrder lt) (hr : Ranked env lt) (hnc : NoCatchEnv e
           intro e he; rw [← hfin]; exact (pop_ge env _ n e).mpr (Or.inl he)
         have hrg : ∀ e ∈ s1.rg, e ∈ fin.rg := by
           intro e he; rw [← hfin]; exact pop_rg_mono env _ n e he
-        have hfr : FinRel s1 fin n := ⟨hun1, Or.inl hdata, fun e he _ _ => hge e he, hrg, hinputs⟩
-        refine ⟨finish hm hnone hnot hpost hfr g' hst' hidx' hF (hnoNew fin hdata), ?_⟩
+        have hgeq := hpopIn s1 rfl rfl rfl
+        rw [hfin] at hgeq
+        simp only [hc', Bool.false_eq_true, if_false] at hgeq
+        have hunT : ∀ t, s.edgeTarget = some t → ¬ Held s1 t := by
+          intro t ht hh
+          unfold Held at hh
+          rw [hpost.mid.gi.stackUnheld t (by rw [hs1stack]; simp [edgeTarget_mem s t ht])] at hh; cases hh
+        have hfr : FinRel s1 fin n := ⟨hun1, Or.inl hdata, fun e he _ _ => hge e he, hrg, hinputs, by
+          intro a k hk he
+          rcases hgeq _ he with h | ⟨t, ht, h⟩
+          · exact h
+          · cases h; exact absurd hk (hunT k ht)⟩
+        have hstackIn : ∀ a t, t ∈ s.stack → (a, GNode.elem t) ∈ fin.ge →
+            (a, GNode.elem t) ∈ s.ge ∨ s.edgeTarget = some t := by
+          intro a t ht he
+          rcases hgeq _ he with h | ⟨t', ht', h⟩
+          · exact (hold a t ht h).imp id (fun h => h.2)
+          · cases h; exact Or.inr ht'
+        refine ⟨finish hm hnone hnot hpost hfr g' hst' hidx' hF (hnoNew fin hdata) hstackIn, ?_⟩
         intro w hw
         cases hw
         have hT : (s.push env n).edgeTarget = s.edgeTarget := edgeTarget_push_uncached env s n hm.len hm.idxok hc'
-        obtain ⟨tr, hrep, hpend⟩ := htrace v rfl
+        obtain ⟨tr, hrep, hpend, hnewin⟩ := htrace v rfl
         right
-        refine ⟨hc', tr, hrep, ?_, ?_⟩
+        refine ⟨hc', tr, hrep, ?_, ?_, ?_⟩
+        rotate_left 2
+        · -- the edges the caller got: from the body of this frame (recorded in `tr`), and the object node
+          intro a t ht he
+          rcases hgeq _ he with h | ⟨t', _, h⟩
+          · rw [hT] at hnewin
+            exact (hnewin a t ht h).imp id (JustE.mono (fun ev hm => List.mem_cons_of_mem _ hm))
+          · cases h; exact Or.inr (Or.inr ⟨n, rfl, by simp⟩)
         · intro ev hm'
           have hp := hpend ev hm'
           rw [hT] at hp
